@@ -241,7 +241,9 @@ def r3(ctx):
         okargs = bool(rl) and bool(wl) and src(hc[0].args[0]) == wl[0].target.id and src(hc[0].args[1]) == rl[-1].target.id
     ctx.emit('C03-R3', okargs, BARCODEPARSER, hc[0] if hc else f, 'hamming_circle is called with (whitelisted barcode, distance, alphabet)', key='circle-arguments', nontrivial=False)
     g = ctx.fn(BARCODEPARSER, 'hamming_circle')
-    s_, n_, a_ = [x.arg for x in g.args.args]
+    if len(g.args.args) < 3:
+        raise AnalysisError('hamming_circle: expected (string, distance, alphabet)')
+    s_, n_, a_ = [x.arg for x in g.args.args][:3]
     loops = [l for l in walk_no_nested(g) if isinstance(l, ast.For)]
     # the three nested loops, outermost first (whether itertools is imported as a module or by name)
     def depth(l_):
@@ -249,7 +251,22 @@ def r3(ctx):
     loops = sorted(loops, key=depth)
     sig = [src(l.iter).replace('itertools.', '') for l in loops]
     ok = len(sig) == 3 and sig[0] == f'combinations(range(len({s_})), {n_})' and sig[1] == f'product(range(len({a_}) - 1), repeat={n_})' and sig[2].startswith('zip(')
-    ctx.emit('C03-R3', ok, BARCODEPARSER, g, f'hamming_circle: positions {sig[0] if sig else None}; replacements {sig[1] if len(sig) > 1 else None}', key='circle-enumeration')
+    if not ok:
+        # positions enumerated elsewhere (a pattern table handed in by the caller): they must be the positions of the string being changed
+        lens = []
+        for scope, own in ((g, s_), (f, src(hc[0].args[0]) if hc else None)):
+            for c_ in ast.walk(scope):
+                if isinstance(c_, ast.Call) and dotted(c_.func) == 'range' and len(c_.args) == 1 and isinstance(c_.args[0], ast.Call) and dotted(c_.args[0].func) == 'len' \
+                        and any(isinstance(p_, ast.Call) and 'combinations' in (dotted(p_.func) or '') and any(x is c_ for x in ast.walk(p_)) for p_ in ast.walk(scope)):
+                    lens.append((src(c_.args[0].args[0]), own))
+        foreign = [(x, own) for x, own in lens if x != own]
+        if foreign:
+            ctx.emit('C03-R3', False, BARCODEPARSER, g, f'substitution positions are enumerated for the length of `{foreign[0][0]}`, not of the barcode being expanded (`{foreign[0][1]}`): '
+                     'in a whitelist of mixed lengths the tail of longer barcodes is never substituted', key='circle-enumeration', what='hamming_circle: positions do not cover the whole barcode')
+        else:
+            ctx.emit('C03-R3', False, BARCODEPARSER, g, f'hamming_circle enumerates {sig} (not understood)', key='circle-enumeration', undecided=True)
+    else:
+        ctx.emit('C03-R3', ok, BARCODEPARSER, g, f'hamming_circle: positions {sig[0] if sig else None}; replacements {sig[1] if len(sig) > 1 else None}', key='circle-enumeration')
     ifs = [i for i in walk_no_nested(g) if isinstance(i, ast.If)]
     ok = len(ifs) == 1 and isinstance(ifs[0].test, ast.Compare) and isinstance(ifs[0].test.ops[0], ast.Eq) and f'{a_}[' in src(ifs[0].test) and \
         f'{a_}[-1]' in src(ifs[0].body[0]) and f'{a_}[' in src(ifs[0].orelse[0]) and f'{a_}[-1]' not in src(ifs[0].orelse[0])
